@@ -798,3 +798,100 @@ def rand(c, seed=(0,), itype="cell", arity=2, complex_ok=False, with_ids=False, 
     b = Built(c, forms=[f])
     b.tags = sorted(g.tags)
     return b
+
+
+@builder
+def rand_expr(c, seed=(0,), rank=0, shape="scalar", npts=4, facet=False, complex_ok=False, nexpr=1):
+    rng = np.random.default_rng(list(seed))
+    g = Gen(c, rng, "exterior_facet" if facet else "cell", arity=rank, complex_ok=complex_ok)
+    out = []
+    for _ in range(nexpr):
+        sc = g.scalar_fn()
+        if rank == 1:
+            V, kind = g.space(allow_vector=True, allow_piola=True)
+            u = TrialFunction(V)
+            parts = [(ufl.split(u)[0], "vector"), (ufl.split(u)[1], "scalar")] if kind == "mixed" else [(u, kind)]
+            w, k = g.pick(parts)
+            cands = [(e, k2) for (_, e, k2) in g.ops_for(w, k)]
+        else:
+            f = g.coefficient("scalar")
+            q = g.coefficient("vector")
+            cands = [(f, "scalar"), (grad(f), "vector"), (q, "vector"), (grad(q), "tensor"), (c.x, "vector"),
+                     (outer(q, grad(f)), "tensor"), (g.constant((c.gdim, c.gdim)), "tensor"), (g.constant((c.gdim,)), "vector")]
+            if facet:
+                cands += [(c.n, "vector"), (outer(c.n, q), "tensor")]
+        want = shape
+        pool = [e for e, k2 in cands if k2 == want]
+        if not pool:
+            e0, k0 = g.pick(cands)
+            fl = g.fill(k0)
+            e0 = e0 if fl is None else inner(e0, fl)
+            if want == "vector":
+                e0 = e0 * g.fill("vector")
+            elif want == "tensor":
+                e0 = e0 * g.fill("tensor")
+            e = e0
+        else:
+            e = g.pick(pool)
+        e = sc * e
+        if facet:
+            ft = basix.cell.subentity_types(basix.CellType[c.cell])[c.tdim - 1][0]
+            p, _ = basix.make_quadrature(ft, 4)
+            pts = np.ascontiguousarray(p[: max(1, npts)])
+        else:
+            pts = _ref_points(c.cell, "interior", npts, seed=int(rng.integers(1 << 30)))
+        out.append((e, pts))
+    b = Built(c, expressions=out)
+    b.tags = sorted(g.tags)
+    return b
+
+
+@builder
+def dispatch(c, seed=(0,), nint=6, types=("cell", "exterior_facet", "interior_facet", "vertex"), arity=2, nforms=1,
+             explicit_degree=True, degree=1):
+    """Forms with arbitrary sets of integral types and subdomain ids (ints incl. 0 and large, tuples,
+    everywhere, the same id repeated with different quadrature metadata)."""
+    rng = np.random.default_rng(list(seed))
+    V = c.V("Lagrange", degree)
+    f, g = Coefficient(V), Coefficient(V)
+    k = Constant(c.mesh)
+    forms = []
+    decl = []
+    for fi in range(nforms):
+        ar = arity if fi == 0 else int(rng.integers(0, 3))
+        u, v = TrialFunction(V), TestFunction(V)
+        form = None
+        d = []
+        idpool = [0, 1, 2, 3, 7, 1000000]
+        for i in range(nint):
+            t = types[int(rng.integers(len(types)))]
+            r = rng.random()
+            if r < 0.25:
+                sid = None
+            elif r < 0.75:
+                sid = int(idpool[int(rng.integers(len(idpool)))])
+            else:
+                n = int(rng.integers(2, 4))
+                sid = tuple(int(x) for x in rng.permutation(idpool)[:n])
+            a = float(np.round(rng.uniform(0.5, 3.0), 3))
+            R = (lambda e: e("+")) if t == "interior_facet" else (lambda e: e)
+            coef = [lambda: a, lambda: a * exp(0.3 * R(f)), lambda: a * k * (1 + R(g) * R(g)), lambda: a * R(c.x[0])][int(rng.integers(4))]()
+            if ar == 2:
+                e = coef * inner(R(u), R(v)) if t != "interior_facet" or rng.random() < 0.5 else coef * inner(u("-"), v("+"))
+            elif ar == 1:
+                e = coef * (R(v) if t != "interior_facet" or rng.random() < 0.5 else v("-"))
+            else:
+                e = coef * R(f)
+            kw = {}
+            if sid is not None:
+                kw["subdomain_id"] = sid
+            if explicit_degree:
+                kw["metadata"] = {"quadrature_degree": int(rng.integers(1, 5))}
+            term = e * measure(t, **kw)
+            d.append({"type": t, "sid": "everywhere" if sid is None else sid, "degree": kw.get("metadata", {}).get("quadrature_degree")})
+            form = term if form is None else form + term
+        forms.append(form)
+        decl.append(d)
+    b = Built(c, forms=forms)
+    b.declared = decl
+    return b
